@@ -102,6 +102,15 @@ Theorem layout_check_is_exact_without_comments : forall f m i prev,
 Proof. exact layout_exact. Qed.
 Print Assumptions layout_check_is_exact_without_comments.
 
+(* which comments must survive is decided against the model itself: the marked printer gives
+   the printed tokens of a description, and those it marks "kept" are exactly what the model
+   formatter prints; so "between two tokens printed on one line" and "attached to a deleted
+   construct" (the only excuses of the finding C20-comment-dropped) are read off Model.v *)
+Theorem marked_printer_is_the_formatter : forall a,
+  map fst (mark a) = print a /\ map fst (filter snd (mark a)) = print (norm a) /\ mark_consistent a = true.
+Proof. intros a. split; [apply mark_tokens|split; [apply mark_kept|apply mark_consistent_true]]. Qed.
+Print Assumptions marked_printer_is_the_formatter.
+
 (* comments: "no comment invented" (the formatted comments are a subsequence of the source's)
    together with "as many as before" is "exactly the same comments in the same order" *)
 Theorem no_comment_invented_and_none_lost : forall ys xs,
@@ -181,7 +190,7 @@ Proof. vm_compute. split; reflexivity. Qed.
 (* the hypotheses of [checked_case_satisfies_property] are met by a concrete non-trivial case: what
    a correct formatter returns for [ex_api], with two comments kept in place *)
 Definition ex_case : case :=
-  mkCase None None true (print ex_api) [(0, "// head"); (3, "// after syntax")] (Some ex_api) OOk OOk
+  mkCase None None true (print ex_api) [(0, "// head"); (3, "// after syntax")] [false; true] (Some ex_api) OOk OOk
          (print (norm ex_api)) [(0, "// head"); (3, "// after   syntax ")] (Some (norm ex_api)) true true true [OErr; OOk].
 
 Example ex_case_checked : agrees ex_case = true /\ prop_ok ex_case = true.
